@@ -68,7 +68,12 @@ class Runner(object):
     def classes(self, fmt, desc, lex, enc, want_db=False):
         """failure classes of one rendering: {class: detail}"""
         R = RENDER[fmt]
-        data, opts = R.render_with_opts(desc, lex, enc)
+        try:
+            data, opts = R.render_with_opts(desc, lex, enc)
+        except UnicodeEncodeError:
+            # this charset cannot carry the description at all: no file, nothing to fail
+            self.all_diffs = {}
+            return ({}, None, b"") if want_db else {}
         db, problems = c15_lib.load(self.cm, fmt, data, opts)
         self.loads += 1
         out = {}
@@ -256,8 +261,17 @@ def run(chk):
             desc = netdesc.gen_desc(rng, fmt)
             lex_a = {} if i % 5 == 0 else R.random_lex(rng)
             lex_b = R.random_lex(rng)
-            enc_a = rng.choice(R.ENCODINGS)
-            enc_b = rng.choice(R.ENCODINGS)
+            feasible = []
+            for e in R.ENCODINGS:
+                try:
+                    R.render_with_opts(desc, {}, e)
+                    feasible.append(e)
+                except UnicodeEncodeError:
+                    pass
+            enc_a = rng.choice(feasible)
+            enc_b = rng.choice(feasible)
+            if "+cm=" in enc_a or "+cm=" in enc_b:
+                chk.count("%s:split-charset-options" % fmt)
             feats = set()
             for fr in desc["frames"]:
                 for sg in fr["signals"]:
@@ -323,7 +337,7 @@ def run(chk):
                     data_s, opts_s = R.render_with_opts(sdesc, mlex, menc)
                     chk.violation(key, "reader does not recover the described %s from a well-formed %s file (%s)" % (cls, fmt.upper(), path),
                                   dict(format=fmt, encoding=menc, reader_options=opts_s, lexical_choices=netdesc.to_jsonable(mlex),
-                                       description=netdesc.to_jsonable(sdesc), file=data_s.decode(menc, "replace")[:6000]),
+                                       description=netdesc.to_jsonable(sdesc), file=data_s.decode(menc.partition("+cm=")[0], "replace")[:6000]),
                                   netdesc.to_jsonable(a), netdesc.to_jsonable(b))
             if len(forms) == 2:
                 fa, fb = c15_lib.metamorphic_form(forms[0][0], fmt), c15_lib.metamorphic_form(forms[1][0], fmt)
